@@ -10,7 +10,7 @@ import (
 
 func c11Gen(r *rand.Rand, tier string) []spec.Case {
 	var out []spec.Case
-	sizes := []int{0, 1, 1023, 1024, 1025, 2047, 2048, 2049, 4095, 4096, 4097, 8192, 65536}
+	sizes := []int{0, 1, 1015, 1023, 1024, 1025, 2039, 2048, 2049, 4087, 4096, 4097, 8192, 65536}
 	n := 45
 	if tier == "thorough" {
 		n = 4000
@@ -54,6 +54,31 @@ func c11Gen(r *rand.Rand, tier string) []spec.Case {
 			c.ClientDelayMs = r.Intn(500)
 		}
 		out = append(out, spec.Case{Kind: proto, P: spec.MustJSON(c)})
+	}
+	// one single write on one stream and then silence: whatever the copier's chunking, a lone write of
+	// a size around (a multiple of) its buffer sizes must come out without anything following it
+	// (a frame carries a 9-byte header: the sizes below are those of the write the plugin issues)
+	lone := []int{10, 1023, 1024, 1025, 2048, 3072, 4096, 4097, 8192, 32768}
+	for i, proto := range []string{"netrpc", "grpc", "grpcmux"} {
+		for _, st := range []string{"o", "e"} {
+			for _, sz := range lone {
+				if proto == "grpcmux" && tier != "thorough" && sz != 1024 && sz != 4096 {
+					continue
+				}
+				sz -= 9
+				seed := int64(r.Intn(1 << 20))
+				c := spec.C11Case{Proto: proto, ViaRPC: (i+sz)%2 == 0}
+				c.Main.Seed, c.Pre.Seed = seed, seed
+				if sz%2 == 0 && r.Intn(2) == 0 {
+					// preceded by a short write well before it
+					c.Main.Frames = append(c.Main.Frames, spec.C11Frame{Stream: st, Len: 1 + r.Intn(50)})
+					c.Main.Frames = append(c.Main.Frames, spec.C11Frame{Stream: st, Len: sz, GapUs: 50000})
+				} else {
+					c.Main.Frames = append(c.Main.Frames, spec.C11Frame{Stream: st, Len: sz})
+				}
+				out = append(out, spec.Case{Kind: proto + "-lone", P: spec.MustJSON(c)})
+			}
+		}
 	}
 	// many short writes on both streams, some before the host attaches, while every
 	// Send in the plugin is delayed a little: several chunks of both streams are
